@@ -152,6 +152,9 @@ class McConn:
             done += 1
             if r is not None:
                 replies.append(r)
+                if r.startswith((b"ERROR", b"CLIENT_ERROR", b"SERVER_ERROR")) and "hangup-after-error" in (getattr(self.s, "dialect", None) or ()):
+                    # dialect: the server (a proxy; memcached itself for some errors) hangs up after it has sent an error line
+                    self.closed = True
         return replies
 
     def _err(self, what, line):
